@@ -863,6 +863,8 @@ BlockOutboundStrict == blockOut = survAll
 \* every in-progress operation can continue (the named exits cover all cases)
 OpProgress == (op.kind # "none" /\ op.pc # "done") => ENABLED OpStep
 
-\* emit every completed transaction of the bounded state graph for replay on the implementation
-EmitHist == (tx.phase # "idle" /\ tx'.phase = "idle") => PrintT("@@" \o ToJson(hist'))
+\* emit the history behind every observable transition of the bounded state graph for replay on the implementation
+\* (a history that stops inside a transaction is completed by the driver with STOPs; only its steps are compared).
+\* Printing at the end of transactions only would lose the transitions into states that several paths reach.
+EmitHist == (hist' # hist) => PrintT("@@" \o ToJson(hist'))
 =============================================================================
